@@ -78,6 +78,20 @@ first, next_obs of the last step of a window, reward folded with gamma = 0.5 - e
 sampled row and sampled index (4 draws for each of three batch sizes) must be one of them.  `clear_probes` re-runs the two
 analysed inputs of finding C09-clear-keeps-subclass-state (repaired in /repo 55584b2) and reports through chk.finding.
 The `exact` suite appends clear() + adds + dump + samples to half of its cases for all three classes.
+
+Read side of the multi-agent buffer (`py2lean_masample.py` -> `Gen/MaSampleGen.lean`, `Proofs/MaSampleGenEq.lean`, theorems
+`C09_masample_*`, `C09_stack_rows`, `C09_source_translation_masample_*`): suite `masample` drives the real
+`MultiAgentReplayBuffer.sample(k)` with the index draw recorded through a wrapper around the module's `random.sample`
+(if the code draws another way the positions are read back off the provenance codes and the case is tagged), 2-4 fields
+(sometimes a flag field), 1-3 agents whose keys every experience lists in its own order, each (field, agent) a plain
+array, a dict (members listed in a per-experience order) or a tuple, rows scalars / vectors / matrices, batch sizes
+0, 1..len, len + 1, single adds between the draws.  Every leaf carries a provenance code (experience, field, agent,
+member); the WHOLE returned structure (every field, agent, member, row) is compared with `Ring.maSample` on the same
+positions (`ring masample` of the Lean driver; a raising call must be `reject`).  Oracle, independent of the model: every
+row of a batch decodes, in every field / agent / member, to the ONE experience stored at its drawn position, that
+experience is among the last `cap` added, fields and agents come in `field_names` / `agent_ids` order, positions drawn by
+`random.sample` are distinct, `len()` = min(cap, added), the deque is the same before and after `sample`, and no batch
+handed out changes when experiences are added or drawn later.
 """
 from __future__ import annotations
 
@@ -528,9 +542,11 @@ def pre_gate(chk: Check) -> None:
     import common
     import py2lean_ring
     import py2lean_reorg
+    import py2lean_masample
     # both generated files feed Props.C09: bring both up to date before either gate builds it, so that a file left
     # over from a run against another tree is not blamed on the wrong translator
-    for mod, out in ((py2lean_ring, "Gen/RingGen.lean"), (py2lean_reorg, "Gen/ReorgGen.lean")):
+    for mod, out in ((py2lean_ring, "Gen/RingGen.lean"), (py2lean_reorg, "Gen/ReorgGen.lean"),
+                     (py2lean_masample, "Gen/MaSampleGen.lean")):
         try:
             mod.write_if_changed(mod.translate(common.REPO)[0], common.LEAN_DIR / out)
         except mod.Unsupported:
@@ -540,6 +556,9 @@ def pre_gate(chk: Check) -> None:
     common.translation_gate(chk, py2lean_reorg, "Gen/ReorgGen.lean", ["Gen.ReorgGen", "Proofs.ReorgGenEq", "Props.C09"],
                             "_reorganize_dicts / save_to_memory_vect_envs per-environment split, Transition shape "
                             "normalisation, reshape loop of ReplayBuffer.add")
+    common.translation_gate(chk, py2lean_masample, "Gen/MaSampleGen.lean",
+                            ["Gen.MaSampleGen", "Proofs.MaSampleGenEq", "Props.C09"],
+                            "MultiAgentReplayBuffer.sample / _process_transition / stack_transitions (read side)")
 
 
 def one_case(chk: Check, which: str, cap: int, kind: str, ops, case_seed: int, cfg=None):
@@ -578,7 +597,7 @@ def run(chk: Check) -> None:
                        "its dtype (numeric types vary only where Transition normalises them); multi-agent sample() hands "
                        "out float32, so sampled leaves are compared with the float32 value of what was stored"]
     # corpus first
-    corpus = sorted(f for f in (ROOT / "corpus" / "C09").glob("*.json") if not f.name.startswith(("reorg_", "shape_", "exact_", "matypes_")))
+    corpus = sorted(f for f in (ROOT / "corpus" / "C09").glob("*.json") if not f.name.startswith(("reorg_", "shape_", "exact_", "matypes_", "masample_")))
     cases = []
     for f in corpus:
         c = json.loads(f.read_text())
@@ -629,6 +648,7 @@ def run(chk: Check) -> None:
     shape_suite(chk)
     exact_suite(chk)
     matypes_suite(chk)
+    masample_suite(chk)
     clear_suite(chk)
     clear_probes(chk)
     if chk.tier == "thorough":
@@ -636,6 +656,7 @@ def run(chk: Check) -> None:
         selftest_reorg(chk)
         selftest_types(chk)
         selftest_clear(chk)
+        selftest_masample(chk)
 
 
 def problem_kind(msg: str) -> str:
@@ -1245,6 +1266,354 @@ def selftest_reorg(chk: Check) -> None:
         from common import InfraError
         raise InfraError("C09 self-test: a per-environment split that repeats environment 0 was not noticed")
     chk.notes.append("self-test: split repeating environment 0 detected")
+
+
+# ----------------------------------------------------------------------------- read side of the multi-agent buffer
+MS_FLAGS = ["done", "termination", "terminated", "truncation", "truncated"]
+MS_PLAIN = ["state", "action", "reward", "next_state", "info"]
+
+
+def ms_code(case: dict, eid: int, j: int, a: int, mem: int) -> int:
+    """provenance of one leaf; flag fields are cast to uint8 by sample(), so their codes stay below 256"""
+    if case["fields"][j] in MS_FLAGS:
+        return (eid * case["agents"] + a) % 256
+    return ((eid * 4 + j) * 4 + a) * 4 + mem + 1
+
+
+def gen_masample_case(rng: random.Random) -> dict:
+    nf = rng.randint(2, 4)
+    fields = rng.sample(MS_PLAIN, nf - 1) + [rng.choice(MS_FLAGS) if rng.random() < 0.7 else rng.choice(MS_PLAIN)]
+    fields = list(dict.fromkeys(fields))
+    rng.shuffle(fields)
+    agents = rng.randint(1, 3)
+    kinds = []
+    for f in fields:
+        row = []
+        for _ in range(agents):
+            k = rng.choice(["A", "A", "D", "T"])
+            if f in MS_FLAGS and rng.random() < 0.93:
+                k = "A"                                   # a dict / tuple flag has no .astype: sample() raises
+            row.append({"kind": k, "members": rng.randint(1, 3), "shape": rng.choice(["scalar", "vec", "mat"])})
+        kinds.append(row)
+    cap = rng.choice([1, 2, 3, 4, 6, 8])
+    ops, stored = [], 0
+    for _ in range(rng.randint(1, min(cap + 3, 9))):
+        ops.append(["add"])
+        stored = min(cap, stored + 1)
+    for _ in range(rng.randint(2, 6)):
+        r = rng.random()
+        if r < 0.2:
+            ops.append(["add"])
+            stored = min(cap, stored + 1)
+        else:
+            ks = list(range(1, stored + 1)) + [stored, 1]
+            ops.append(["sample", rng.choice(ks) if r < 0.9 else rng.choice([0, stored + 1, -1])])
+    return {"cap": cap, "fields": fields, "agents": agents, "kinds": kinds, "ops": ops, "seed": rng.randrange(1 << 30)}
+
+
+def ms_leaf(shape: str, code: int):
+    if shape == "scalar":
+        return np.float64(code)
+    return np.full((3,) if shape == "vec" else (2, 2), float(code))
+
+
+def ms_experience(case: dict, eid: int, order_rng: random.Random):
+    """(arguments of save_to_memory, the model's transition: per field [(agent, ent)…] in the key order given)"""
+    args, trans = [], []
+    for j, f in enumerate(case["fields"]):
+        order = list(range(case["agents"]))
+        order_rng.shuffle(order)
+        d, t = {}, []
+        for a in order:
+            spec = case["kinds"][j][a]
+            n = spec["members"]
+            if spec["kind"] == "A":
+                d[f"agent_{a}"] = ms_leaf(spec["shape"], ms_code(case, eid, j, a, 0))
+                t.append((a, ("A", ms_code(case, eid, j, a, 0))))
+            elif spec["kind"] == "D":
+                ks = list(range(n))
+                order_rng.shuffle(ks)
+                d[f"agent_{a}"] = {f"k{m}": ms_leaf(spec["shape"], ms_code(case, eid, j, a, m)) for m in ks}
+                t.append((a, ("D", [(m, ms_code(case, eid, j, a, m)) for m in ks])))
+            else:
+                d[f"agent_{a}"] = tuple(ms_leaf(spec["shape"], ms_code(case, eid, j, a, m)) for m in range(n))
+                t.append((a, ("T", [ms_code(case, eid, j, a, m) for m in range(n)])))
+        args.append(d)
+        trans.append(t)
+    return args, trans
+
+
+def ms_wire_trans(trans) -> str:
+    out = [str(len(trans))]
+    for fld in trans:
+        out.append(str(len(fld)))
+        for a, (kind, x) in fld:
+            out.append(str(a))
+            if kind == "A":
+                out += ["A", str(x)]
+            elif kind == "D":
+                out += ["D", str(len(x))] + [f"{m} {c}" for m, c in x]
+            else:
+                out += ["T", str(len(x))] + [str(c) for c in x]
+    return " ".join(out)
+
+
+def ms_rows(x, k: int):
+    """codes of the rows of one returned leaf (leading dimension must be k; a row is its code if constant)"""
+    arr = np.asarray(x.detach().cpu().numpy() if hasattr(x, "detach") else x, dtype=np.float64)
+    if arr.ndim == 0 or arr.shape[0] != k:
+        return f"SHAPE{tuple(arr.shape)}"
+    out = []
+    for r in range(k):
+        v = arr[r].reshape(-1)
+        out.append(int(v[0]) if v.size and np.all(v == v[0]) and float(v[0]).is_integer() else "MIXED")
+    return out
+
+
+def ms_decode_batch(batch, case: dict, k: int):
+    """tuple(field -> {agent: tensor | dict | tuple}) -> [[(agent index, ("A", rows) | ("D", [(member, rows)…]) | ("T", [rows…]))…]…]"""
+    out = []
+    for fld in batch:
+        row = []
+        for key, v in fld.items():
+            a = int(str(key).split("_")[1])
+            if isinstance(v, dict):
+                row.append((a, ("D", [(int(str(m)[1:]), ms_rows(x, k)) for m, x in v.items()])))
+            elif isinstance(v, tuple):
+                row.append((a, ("T", [ms_rows(x, k) for x in v])))
+            else:
+                row.append((a, ("A", ms_rows(v, k))))
+        out.append(row)
+    return out
+
+
+def ms_parse_batch(line: str):
+    """inverse of `Ring.showBatch`, in the format of ms_decode_batch"""
+    toks = line.split()
+    pos = 0
+
+    def nat():
+        nonlocal pos
+        pos += 1
+        return int(toks[pos - 1])
+
+    def rows():
+        return [nat() for _ in range(nat())]
+    out = []
+    for _ in range(nat()):
+        fld = []
+        for _ in range(nat()):
+            a = nat()
+            kind = toks[pos]
+            pos += 1
+            if kind == "A":
+                fld.append((a, ("A", rows())))
+            elif kind == "D":
+                fld.append((a, ("D", [(nat(), rows()) for _ in range(nat())])))
+            else:
+                fld.append((a, ("T", [rows() for _ in range(nat())])))
+        out.append(fld)
+    if pos != len(toks):
+        raise ValueError("trailing tokens")
+    return out
+
+
+def ms_eid_of(case: dict, j: int, a: int, mem: int, code, added: int):
+    """the experience a code of leaf (j, a, mem) belongs to, among the experiences that can still be stored"""
+    for eid in range(max(0, added - case["cap"]), added):
+        if ms_code(case, eid, j, a, mem) == code:
+            return eid
+    return None
+
+
+def masample_one(chk: Check, case: dict):
+    """returns (problems of the oracle, model/implementation differences, tags)"""
+    import copy
+    from agilerl.components import multi_agent_replay_buffer as mb
+    fields, na, cap = case["fields"], case["agents"], case["cap"]
+    buf = mb.MultiAgentReplayBuffer(memory_size=cap, field_names=list(fields), agent_ids=[f"agent_{a}" for a in range(na)])
+    order_rng = random.Random(case["seed"])
+    draws: list = []
+
+    class RandomProxy:
+        def __getattr__(self, name):
+            return getattr(random, name)
+
+        @staticmethod
+        def sample(population, k, **kw):
+            pos = random.sample(range(len(population)), k, **kw)     # raises exactly as on the population itself
+            draws.append(list(pos))
+            return [population[i] for i in pos]
+    problems, diffs, tags, model_ops, pending = [], [], [], [], []
+    hist: list = []              # model transitions of everything added, oldest first
+    handed: list = []            # (op number, decoded snapshot, live batch, k)
+    real_random, mb.random = mb.random, RandomProxy()
+    random.seed(case["seed"])
+    try:
+        for n, op in enumerate(case["ops"]):
+            if op[0] == "add":
+                args, trans = ms_experience(case, len(hist), order_rng)
+                buf.save_to_memory(*args, is_vectorised=False)
+                hist.append(trans)
+                if len(hist) > cap:
+                    tags.append("ma-evict")
+                if len(buf) != min(cap, len(hist)):
+                    problems.append(f"len = {len(buf)} after {len(hist)} additions to a buffer of capacity {cap}")
+                continue
+            k = op[1]
+            mem = hist[-cap:]
+            before = [copy.deepcopy(e) for e in buf.memory]
+            draws.clear()
+            try:
+                batch, raised = buf.sample(k), None
+            except Exception as e:
+                batch, raised = None, f"{type(e).__name__}: {str(e)[:80]}"
+            same = len(before) == len(buf.memory) and all(
+                _ms_same(x, y) for e0, e1 in zip(before, buf.memory) for x, y in zip(e0, e1))
+            if not same:
+                problems.append(f"op {n}: sample({k}) modified the memory")
+            wire_head = (f"ring masample {len(fields)} {' '.join(fields)} {na} {' '.join(str(a) for a in range(na))} "
+                         f"{len(mem)} {' '.join(ms_wire_trans(t) for t in mem)} {k}")
+            if raised is not None:
+                tags.append("masample-raises")
+                legal = 1 <= k <= len(mem) and all(case["kinds"][j][a]["kind"] == "A"
+                                                   for j, f in enumerate(fields) if f in MS_FLAGS for a in range(na))
+                if legal:
+                    problems.append(f"op {n}: sample({k}) of a buffer holding {len(mem)} raised {raised}")
+                pos = draws[0] if draws else list(range(max(0, min(k, len(mem)))))
+                pending.append((n, k, None, wire_head + f" {len(pos)} {' '.join(map(str, pos))}", raised))
+                continue
+            dec = ms_decode_batch(batch, case, k)
+            if draws:
+                pos = draws[0]
+                tags.append("masample-draw-recorded")
+                if len(set(pos)) != len(pos):
+                    problems.append(f"op {n}: random.sample drew positions {pos} with a repetition")
+            else:                                        # the code draws some other way: read the positions back
+                tags.append("masample-draw-read-back")
+                first = dec[0][0][1]
+                codes = first[1] if first[0] == "A" else first[1][0][1] if first[0] == "D" else first[1][0]
+                mem0 = 0 if first[0] != "D" else first[1][0][0]
+                eids = [ms_eid_of(case, 0, dec[0][0][0], mem0, c, len(hist)) for c in (codes if isinstance(codes, list) else [])]
+                if len(eids) != k or any(e is None for e in eids):
+                    problems.append(f"op {n}: sample({k}) returned rows {codes} of field {fields[0]} that are not stored transitions")
+                    continue
+                pos = [e - (len(hist) - len(mem)) for e in eids]
+            # oracle: fields / agents in order, every leaf of row r is the experience at position pos[r]
+            if len(dec) != len(fields):
+                problems.append(f"op {n}: sample({k}) returned {len(dec)} fields for field_names {fields}")
+            for j, fld in enumerate(dec[: len(fields)]):
+                if [a for a, _ in fld] != list(range(na)):
+                    problems.append(f"op {n}: field {fields[j]} lists agents {[a for a, _ in fld]}, agent_ids order is {list(range(na))}")
+                for a, (kind, x) in fld:
+                    leaves = [(0, x)] if kind == "A" else x if kind == "D" else list(enumerate(x))
+                    if kind != case["kinds"][j][a]["kind"] or len(leaves) != (1 if kind == "A" else case["kinds"][j][a]["members"]):
+                        problems.append(f"op {n}: field {fields[j]} agent {a}: container {kind} with {len(leaves)} members, stored "
+                                        f"{case['kinds'][j][a]['kind']} with {case['kinds'][j][a]['members']}")
+                    for m, rws in leaves:
+                        want = [ms_code(case, len(hist) - len(mem) + i, j, a, m) for i in pos]
+                        if rws != want:
+                            problems.append(f"sample({k}) at op {n}: field {fields[j]} agent {a} member {m} holds rows {rws}; the "
+                                            f"experiences at the drawn positions {pos} store {want}")
+            tags += [f"masample-k-{'len' if k == len(mem) else 'one' if k == 1 else 'mid'}"]
+            handed.append((n, copy.deepcopy(dec), batch, k))
+            pending.append((n, k, dec, wire_head + f" {len(pos)} {' '.join(map(str, pos))}", None))
+            for n0, snap, live, k0 in handed[:-1]:
+                if ms_decode_batch(live, case, k0) != snap:
+                    problems.append(f"after op {n}: the batch handed out at op {n0} changed")
+        for n0, snap, live, k0 in handed:
+            if ms_decode_batch(live, case, k0) != snap:
+                problems.append(f"after the last op: the batch handed out at op {n0} changed")
+    finally:
+        mb.random = real_random
+    if pending:
+        answers = chk.driver.run(["reset"] + [w for _, _, _, w, _ in pending])[1:]
+        for (n, k, dec, _, raised), ans in zip(pending, answers):
+            if ans == "bad-op":
+                from common import InfraError
+                raise InfraError("masample suite: the driver rejects the op line")
+            if raised is not None:
+                if ans != "reject":
+                    diffs.append(f"op {n}: sample({k}) raised {raised}; the model returns {ans[:80]}")
+            elif ans == "reject":
+                diffs.append(f"op {n}: sample({k}) returned a batch where the model raises")
+            elif ms_parse_batch(ans) != dec:
+                diffs.append(f"op {n}: sample({k}) differs from Ring.maSample on the same positions: impl={dec} model={ms_parse_batch(ans)}")
+    kinds = sorted({sp["kind"] for row in case["kinds"] for sp in row})
+    tags += [f"masample-kind-{x}" for x in kinds] + [f"masample-agents-{na}"]
+    return problems, diffs, tags
+
+
+def _ms_same(x, y) -> bool:
+    if isinstance(x, dict):
+        return isinstance(y, dict) and list(x) == list(y) and all(_ms_same(x[k], y[k]) for k in x)
+    if isinstance(x, tuple):
+        return isinstance(y, tuple) and len(x) == len(y) and all(_ms_same(a, b) for a, b in zip(x, y))
+    return np.array_equal(np.asarray(x), np.asarray(y))
+
+
+def masample_suite(chk: Check) -> None:
+    rng = chk.rng
+    n_cases = 60 if chk.tier == "quick" else 500
+    cases = [json.loads(f.read_text()) for f in sorted((ROOT / "corpus" / "C09").glob("masample_*.json"))]
+    cases += [gen_masample_case(rng) for _ in range(n_cases)]
+    bad = 0
+    for case in cases:
+        case = case.get("case", case)
+        try:
+            problems, diffs, tags = masample_one(chk, case)
+        except (ValueError, IndexError) as e:
+            from common import InfraError
+            raise InfraError(f"masample suite: cannot parse the driver's answer: {e}")
+        chk.case(["masample", case], nontrivial=any(op[0] == "sample" and op[1] > 1 for op in case["ops"]),
+                 sample={"suite": "masample", "cap": case["cap"], "fields": case["fields"], "agents": case["agents"],
+                         "ops": case["ops"][:6]}, tags=tags + ["masample"])
+        if not problems and not diffs:
+            continue
+        bad += 1
+        key = 0 if problems else 1
+        small = {**case, "ops": ddmin(case["ops"], lambda sub: bool(sub) and bool(_ms_try(chk, {**case, "ops": sub})[key]))}
+        p2, d2, _ = _ms_try(chk, small)
+        if problems:
+            chk.violation((p2 or problems)[0], {"suite": "masample", "case": small, "oracle_problems": p2 or problems,
+                                                "correspondence": "harness/c09.py masample vs Model/Ring.lean maSample"})
+        else:
+            chk.violation((d2 or diffs)[0][:600] + "; property oracle holds on this case and its shrinks",
+                          {"suite": "masample", "case": small, "differences": d2 or diffs}, no_input=True)
+    chk.suite("masample", len(cases), bad)
+
+
+def _ms_try(chk: Check, case: dict):
+    try:
+        return masample_one(chk, case)
+    except Exception as e:
+        return [f"implementation raised {type(e).__name__}: {str(e)[:160]}"], [], []
+
+
+def selftest_masample(chk: Check) -> None:
+    """seeded fault: a regrouping that takes the LAST agent's column from the batch in reverse order (rows of one batch
+    row then come from two experiences) must be noticed by the masample suite's oracle"""
+    from agilerl.components import multi_agent_replay_buffer as mb
+    orig = mb.MultiAgentReplayBuffer._process_transition
+
+    def broken(self, experiences, np_array=False):
+        t = orig(self, experiences, np_array)
+        last = self.agent_ids[-1]
+        for f in t:
+            if not isinstance(t[f][last], (dict, tuple)):
+                t[f][last] = t[f][last].flip(0)
+        return t
+    mb.MultiAgentReplayBuffer._process_transition = broken
+    try:
+        case = {"cap": 4, "fields": ["state", "reward"], "agents": 2, "seed": 1, "ops": [["add"], ["add"], ["sample", 2]],
+                "kinds": [[{"kind": "A", "members": 1, "shape": "vec"}] * 2, [{"kind": "A", "members": 1, "shape": "scalar"}] * 2]}
+        problems, _, _ = masample_one(chk, case)
+    finally:
+        mb.MultiAgentReplayBuffer._process_transition = orig
+    if not problems:
+        from common import InfraError
+        raise InfraError("C09 self-test: a batch whose rows mix two experiences was not noticed")
+    chk.notes.append("self-test: batch rows mixing two experiences detected")
 
 
 # ----------------------------------------------------------------------------- value exactness / dtype option / mixed types
@@ -2096,6 +2465,16 @@ def replay(chk: Check, path: str) -> int:
             print(f"VIOLATION property=C09 replay={path}")
             return 1
         if diff is not None:
+            print(f"VIOLATION property=C09 replay={path} no-failing-input-found")
+            return 1
+        return 0
+    if c.get("suite") == "masample":
+        problems, diffs, _ = masample_one(chk, c["case"])
+        print(json.dumps({"oracle_problems": problems, "differences": diffs}, indent=1))
+        if problems:
+            print(f"VIOLATION property=C09 replay={path}")
+            return 1
+        if diffs:
             print(f"VIOLATION property=C09 replay={path} no-failing-input-found")
             return 1
         return 0
